@@ -228,6 +228,9 @@ def run(ck, F):
     # R3 shared with C02.R4
     sub = C04._Sub(ck, "R3", lambda key: key.startswith("extension"), only_rules=("R4",))
     C02.rule_dispatch(sub, F, None)
+    # .. and with C02.R3: the list that holds the base members and then the own ones is only ever appended to — an operation that takes
+    # members out of it or moves them (retain, dedup, split_off, sort ..) drops or displaces inherited or own members
+    C02.rule_traversal(C04._Sub(ck, "R3", lambda key: ":vec-op:" in key or ":reorder:" in key, only_rules=("R3",)), F, None)
     # R4: lookup arguments
     nf_ok = False
     RESOLVE = A.qname_resolver(F)
